@@ -7,8 +7,8 @@ open Paloma.Abi Paloma.SignBytes Paloma.Attest
 /-! Line protocol of C07 (attestation of delivered EVM messages).  Tokens as in Driver/C05.
 
   reset
-  chain <deployments cid:i|cid:w,…> <activeContract> <hasSnapshot 0|1> <snapshots> <currentSnapshot>
-        <userDeployments> <handoverOk 0|1>                                → ok
+  chain <deployments cid:i|cid:w,…> <activeContract> <liveOn snapshot ids, one per listing> <snapshots>
+        <currentSnapshot> <userDeployments> <handoverOk 0|1> <userActive>  → ok
   msg <valsetValidators> <valsetPowers> <valsetId> <sigs x<ext>:v:r:s,…> <contractId|->
       <kind> <turnstone> <relayer> <id> <estimate> <fields…>               → ok
         (fields as in `C05 sb`, except `up`: <bytecode> <constructorInput>; inserts or
@@ -21,7 +21,8 @@ open Paloma.Abi Paloma.SignBytes Paloma.Attest
                 | <addr>;err;<n> | <addr>;other;<n>
       → as `attest`, with proc=<0|1 per distinct tx hash in order of first appearance>
   attest <id> none | err | other | tx <hash> <status|-> <data> <deployLog 0|1>
-      → <class> q=<ids> proc=<0|1|-> fx=<effects> active=<n> deps=<…> snap=<0|1>
+      → <class> q=<ids> proc=<0|1|-> fx=<effects> active=<n> deps=<…> live=<snapshot ids listing the
+        chain, sorted, with multiplicity> uact=<active user deployments, sorted>
         class: nil | txfailed | notverified | err | unknown
 -/
 
@@ -152,19 +153,19 @@ def showOutcome (old s' : St) (r : Res) (proc : String) : String :=
   let fx := ((s'.effects.take (s'.effects.length - old.effects.length)).filter (fun e => !isRec e)).map showEffect
   s!"{resClass r} q={showNatList (sortNat (s'.queue.map (·.id)))} proc={proc} " ++
     s!"fx={showList (sortStr fx)} active={s'.chain.activeContract} deps={showDeps s'.chain} " ++
-    s!"snap={if s'.chain.hasSnapshot then 1 else 0}"
+    s!"live={showNatList (sortNat s'.chain.liveOn)} uact={showNatList (sortNat s'.chain.userActive)}"
 
 def step (d : State) (args : List String) : State × String :=
   match args with
   | ["reset"] => (init, "ok")
-  | ["chain", deps, act, hs, snaps, cur, ud, ho] =>
-    match (splitList deps).mapM parseDep?, parseNat? act, parseBool? hs, parseNatList? snaps, parseNat? cur,
-          parseNatList? ud, parseBool? ho with
-    | some deps, some act, some hs, some snaps, some cur, some ud, some ho =>
-      let c : Chain := { deployments := deps, activeContract := act, hasSnapshot := hs, snapshots := snaps,
-                         currentSnapshot := cur, userDeployments := ud, handoverOk := ho }
+  | ["chain", deps, act, live, snaps, cur, ud, ho, ua] =>
+    match (splitList deps).mapM parseDep?, parseNat? act, parseNatList? live, parseNatList? snaps, parseNat? cur,
+          parseNatList? ud, parseBool? ho, parseNatList? ua with
+    | some deps, some act, some live, some snaps, some cur, some ud, some ho, some ua =>
+      let c : Chain := { deployments := deps, activeContract := act, liveOn := live, snapshots := snaps,
+                         currentSnapshot := cur, userDeployments := ud, userActive := ua, handoverOk := ho }
       ({ d with s := { d.s with chain := c } }, "ok")
-    | _, _, _, _, _, _, _ => (d, "bad-op")
+    | _, _, _, _, _, _, _, _ => (d, "bad-op")
   | "msg" :: rest =>
     match parseQMsg? rest with
     | some m =>
